@@ -541,6 +541,13 @@ class UEval:
             qs = [a for a in args if isinstance(a, Q)]
             if len(qs) == 2:
                 a, b = qs
+                # np.maximum(x, c) / np.minimum(x, c) with a non-zero absolute constant c and x scaling with the spectrum: a floor /
+                # ceiling that is not homogeneous in the spectrum
+                for x_, c_, ce_ in ((a, b, e.args[1] if len(e.args) > 1 else None), (b, a, e.args[0] if e.args else None)):
+                    if c_.lit and ce_ is not None and x_.h not in (0, None) and short.startswith("np."):
+                        v_ = self.const(ce_)
+                        if isinstance(v_, (int, float)) and not isinstance(v_, bool) and v_ != 0:
+                            self.prob("homog", e, f"{short}() of a quantity of homogeneity degree {x_.h} with the absolute constant {v_}: '{unparse(e)[:70]}'")
                 if a.lit:
                     return b
                 if b.lit:
@@ -629,6 +636,15 @@ class UEval:
             return q
         if m in ("clip",):
             self.prob("clip", e, f"clip() truncates {unparse(e.func.value)[:40]}")
+            # a floor / ceiling at a non-zero absolute constant on a quantity that scales with the spectrum is a comparison of that
+            # quantity with the constant: the result is not homogeneous in the spectrum
+            if q.h not in (0, None):
+                for b_ in [kwarg(e, "min"), kwarg(e, "max")] + list(e.args):
+                    if b_ is None:
+                        continue
+                    v_ = self.const(b_)
+                    if isinstance(v_, (int, float)) and not isinstance(v_, bool) and v_ != 0:
+                        self.prob("homog", e, f"clip() of a quantity of homogeneity degree {q.h} at the absolute constant {v_}: '{unparse(e)[:70]}'")
             return q.copy(note="clipped")
         if m == "assign_coords":
             for a_ in list(e.args) + [k.value for k in e.keywords if k.arg is None]:
